@@ -636,6 +636,16 @@ func parentMain(args []string) int {
 	for _, l := range lines {
 		fmt.Println(l)
 	}
+	if len(lines) > 0 {
+		// a persistent journal of everything that was ever reported (replay files are overwritten by the next run)
+		if f, err := os.OpenFile(filepath.Join(*root, ".build", "violations.log"), os.O_APPEND|os.O_CREATE|os.O_WRONLY, 0o644); err == nil {
+			fmt.Fprintf(f, "---- %s %s %s seed=%d\n", time.Now().Format(time.RFC3339), p.ID, *tier, *seed)
+			for _, l := range lines {
+				fmt.Fprintln(f, l)
+			}
+			f.Close()
+		}
+	}
 	if len(sigCount) > 0 {
 		var sigs []string
 		for k := range sigCount {
